@@ -688,8 +688,15 @@ fn c16_judge(case: &Case, run: &Run, an: &Analysis, stats: &mut Stats) -> CheckR
   let d0 = run_digest(run);
   // Unrelated instance in between (different allocation pattern, fresh hash seeds).
   let other = Case { prog: case.prog.clone(), hist: History { steps: case.hist.steps.iter().rev().filter(|s| matches!(s, Step::Session { .. })).cloned().collect() }, inject: None };
+  // ... and one whose build is aborted by a rejected cyclic require (search state left behind by a failed insertion must
+  // not leak into the next instance).
+  let mut cyclic = Case { prog: case.prog.clone(), hist: History { steps: vec![Step::Session { builds: (0..case.prog.n_tasks() as TaskId).map(Build::TopDown).collect() }] }, inject: None };
+  let stream: Vec<u16> = (0..12u64).map(|i| (fingerprint(&(fingerprint(case), i)) & 0xffff) as u16).collect();
+  gen::inject_cycle_with(&mut cyclic, &stream, false);
+  if let Some(Inject::Cycle { guarded, .. }) = &cyclic.inject { if *guarded { cyclic.inject = None; } }
   for k in 0..2 {
     let _ = engine::run_case(&other, &Opts::default());
+    if k == 1 { let r = engine::run_case(&cyclic, &Opts::default()); if r.sessions.iter().any(|s| s.builds.iter().any(|b| matches!(&b.result, engine::BuildResult::Panic(m) if m.starts_with("Cyclic")))) { stats.class("replay_after_an_unrelated_instance_with_a_rejected_cycle"); } }
     let again = engine::run_case(case, &Opts::default());
     if run_digest(&again) != d0 {
       if again.log == run.log {
